@@ -418,7 +418,7 @@ Require Import Grist.Proofs.Relabel_block_proofs.
 
 Theorem adjust_range_keys_strict u i c :
   0 < u -> 2 * u < UOVER -> 1 <= i <= 52 -> 1 <= c -> sparse_enough i (c + 1) ->
-  exists rb re, range_around u i = Some (FFin false rb, FFin false re) /\ rb <= u < re /\
+  exists rb re, range_around u i = Some (FFin false rb, FFin false re) /\ 0 <= rb <= u /\ u < re /\
     StronglySorted Flt (FFin false rb :: get_range (FFin false rb) (FFin false re) c ++ [FFin false re]) /\
     Forall posfin (get_range (FFin false rb) (FFin false re) c).
 Proof.
@@ -428,7 +428,7 @@ Proof.
   destruct (g_facts u i Hu) as (Hg & _ & _).
   set (g := if u <? P52 then 0 else Z.log2 u - 52) in *.
   set (rb := u / 2 ^ (g + i) * 2 ^ (g + i)) in *. set (re := rb + 2 ^ (g + i)) in *.
-  exists rb, re. split; [exact Hr|]. split; [exact Hin|].
+  exists rb, re. split; [exact Hr|]. split; [lia|]. split; [lia|].
   assert (Hpg : 0 < 2 ^ g) by (apply pow2_pos'; lia).
   apply Z.mod_divide in Hdiv; [|lia]. destruct Hdiv as [A HA].
   assert (HA0 : 0 <= A) by nia.
